@@ -453,6 +453,7 @@ def run(ctx):
                          [ref[a] for a in args])
     two_operations(ctx)
     mixed_style_port(ctx)
+    header_entries_from_plugins(ctx)
     lookup_walk_two_preemptions(ctx)
     sys.setswitchinterval(old_switch)
     ctx.sample({"style": "encoded", "scenario": "two-calls", "preempt_after_event": 1234})
@@ -538,6 +539,62 @@ def two_operations(ctx):
             if len(tr.sent) != 2 or bad or client.options.headers != {}:
                 ctx.fail("requests of concurrent calls do not each carry their own headers", meta,
                          bad or [len(tr.sent), client.options.headers], "one request per call, own SOAPAction")
+
+
+def header_entries_from_plugins(ctx):
+    """No header configured, a plugin adds an entry to the <Header/> of every request it sees (a message id): each
+    request carries exactly the entry added for it - one after another, two in flight, on a client and its clone."""
+    import itertools
+    import suds.plugin
+    from harness.props import c15
+    from suds.sax.element import Element
+    counter = itertools.count(1)
+
+    class AddId(suds.plugin.MessagePlugin):
+        def marshalled(self, context):
+            hdr = context.envelope.getChild("Header")
+            e = Element("MessageID", ns=("wsa", "urn:wsa"))
+            e.setText("id-%d" % next(counter))
+            hdr.append(e)
+    tr = wsdlkit.RecordingTransport(reply=None)
+    client = wsdlkit.client(c15.wsdl_two_ops("http://h.invalid/ids"), transport=tr, plugins=[AddId()])
+    other = client.clone()
+
+    def ids_of(sent):
+        out = []
+        for s_ in sent:
+            try:
+                root = xmlread.parse(s_["message"])
+            except xmlread.XmlError as e:
+                out.append(["not namespace-well-formed: %s" % e] * 2)
+                continue
+            out.append([n.get("text") for n in xmlread.walk(root) if n["name"] == ("urn:wsa", "MessageID")])
+        return out
+    for who, c2 in (("same-client", client), ("client+clone", other)):
+        del tr.sent[:]
+        for c_ in (client, c2, client):
+            c_.service.f()
+        meta = {"scenario": "plugin-header-entries/sequential/" + who}
+        ctx.case(common.canon(meta), True)
+        got = ids_of(tr.sent)
+        if [len(x) for x in got] != [1, 1, 1] or len({x[0] for x in got if x}) != 3:
+            ctx.fail("a request carries header entries that were added for another request", meta, got,
+                     "one MessageID per request, each its own")
+        calls = [lambda: client.service.f(), lambda c2=c2: c2.service.g()]
+        res, total, errs = run_schedule(calls, {})
+        for k in sorted(set(int(1 + i * (total / 2 - 1) / 10.0) for i in range(11))):
+            del tr.sent[:]
+            res, nev, errs = run_schedule(calls, {k: 1})
+            meta = {"scenario": "plugin-header-entries/" + who, "preempt_after_event": k}
+            ctx.case(common.canon(meta), True)
+            ctx.dist["schedule:plugin-header-entries"] += 1
+            if errs or any(r is None or r[0] != "ok" for r in res):
+                ctx.fail("a call failed because another was in progress", meta, [errs, res], "both calls finish")
+                continue
+            got = ids_of(tr.sent)
+            if [len(x) for x in got] != [1, 1] or got[0] == got[1]:
+                ctx.fail("a request carries header entries that were added for another request", meta, got,
+                         "one MessageID per request, each its own")
 
 
 def mixed_style_wsdl():
